@@ -276,7 +276,7 @@ func (w *c29World) setupSubs() {
 	if w.slowPeer {
 		w.h.End.C.A.Strm.End().W.Window = 256
 	}
-	s.ArmFraction([]int{100, 100, 50, 0}[t.Draw(4, "arm-pct")], []string{"floodsub/deliver", "floodsub/release", "floodsub/handle-valid", "floodsub/handle-publish", "harness/stream-close", "harness/handler", "go:pubsub/floodsub/", "go:pubsub/controller/"})
+	s.ArmFraction([]int{100, 100, 50, 0}[t.Draw(4, "arm-pct")], []string{"floodsub/deliver", "floodsub/release", "floodsub/handle-valid", "floodsub/handle-publish", "floodsub/hold-break", "harness/stream-close", "harness/handler", "go:pubsub/floodsub/", "go:pubsub/controller/"})
 }
 
 func (w *c29World) actionsSubs(s *dsim.Sim, add func(dsim.Action)) {
